@@ -47,86 +47,95 @@ def eval_sites(F):
 
 
 def r1_population_evaluator(ctx):
+    """K6 on PopulationEvaluator::execute with the real population stack (collection model), the `holding` of the evaluator an
+    oracle that runs the component's closure on the held evaluator, Evaluate::evaluate an oracle that records what it is
+    given: for stacks of 0..2 populations with a top population of 0..3 individuals, and the evaluator present / absent:
+    the whole top population - same individuals, same order - is handed to the HELD evaluator of the component's own
+    identifier exactly once; the counter advances by exactly its length, exactly when the evaluation succeeded; afterwards
+    the stack is what it was (the evaluated population on top again); an empty stack is a no-op; a failed holding is an Err."""
+    from absint import Interp, Sym, Agg, Ref, TOP, ok, err, std_oracle, chain
+    from collmodel import coll_oracle, Vec, install as _inst, load as _load, heap_get
+    from c04 import StackModel
+    from c10 import mk_oracle
+    import c07
     F = ctx.facts
     fn = F.method(PE, "execute", COMPONENT)
-    body = fn.body
-    sites = [s for s in eval_sites(F) if s[4] is fn]
-    if not ctx.check(len(sites) == 1, "C06.R1", fn.key, "one-evaluate", "PopulationEvaluator::execute reaches Evaluate::evaluate at %d sites, expected 1" % len(sites), loc=fn.loc()):
-        return
-    f, bb, t, sl, root = sites[0]
-    # the population: result of try_pop / pop
-    pops = [(b, tt) for b, tt in body.calls() if tt["f"].get("key") in ("mahf::state::common::Populations::try_pop", "mahf::state::common::Populations::pop")]
-    if not ctx.check(len(pops) == 1, "C06.R1", fn.key, "pops-once", "the evaluation step pops %d populations, expected exactly 1" % len(pops), loc=fn.loc()):
-        return
-    pop_call = pops[0]
+    POP = "mahf::state::common::Populations"
+    sf = F.field_index(POP, "stack")
+    ev_home, cnt_home = 10000, 10001
+    bad = []
+    n = 0
+    for below in (0, 1):
+        for size in (None, 0, 1, 3):
+            for have_eval in (True, False):
+                calls = []
 
-    def is_population(e):
-        """expression denotes the popped vector itself"""
-        s = strip(e)
-        while s[0] in ("downcast", "field"):
-            s = strip(s[1])
-        return s[0] == "call" and s[3].get("bb") == pop_call[0]
+                def holding(interp, env, f, args):
+                    ga = [g for g in (f.get("cgargs") or f.get("gargs") or []) if not g.startswith("closure{") and g != "P"]
+                    ty = ga[0] if len(ga) == 1 else tuple(ga)
+                    interp.mstate["held"] = interp.mstate.get("held", ()) + (ty,)
+                    if not have_eval:
+                        return err(Sym("StateError::NotFound"))
+                    outs_ = interp.call_value(args[1], [Ref(ev_home, [], frame="root"), args[0]])
+                    if outs_ and len(outs_) == 1 and outs_[0][2] == "return":
+                        interp.mstate.clear()
+                        interp.mstate.update(outs_[0][3])
+                        return outs_[0][0]
+                    return TOP
 
-    # slice handed to the evaluator
-    if sl[0] == "captured":
-        cexpr, inner = sl[1], sl[2]
-        leaf, calls_in, fields_in = origin(inner)
-        leaf2, calls_out, _ = origin(cexpr)
-        good = is_population(cexpr) and all(c in WHOLE_OK for c in calls_in)
-        why = "inside closure: %s; captured: %s" % (calls_in, expr_str(cexpr)[:80])
-    else:
-        leaf, cs, _ = origin(sl)
-        good = is_population(sl)
-        why = expr_str(sl)[:100]
-    ctx.check(good, "C06.R1", fn.key, "whole-population-evaluated", "the slice given to the evaluator is not the whole popped population (%s)" % why, detail=why, loc=fn.loc(t.get("line")))
-    ctx.check(enclosing_loop(f.body, bb) is None, "C06.R1", fn.key, "evaluate-once", "Evaluate::evaluate sits in a loop", loc=fn.loc(t.get("line")))
-    # through holding::<Evaluator<P, I>>
-    hold = [(b, tt) for b, tt in body.calls() if tt["f"].get("key") == "mahf::state::State::holding"]
-    okh = len(hold) == 1 and propagated(body, hold[0][0])
-    ev_ty = hold[0][1]["f"]["gargs"][1] if okh else None
-    ctx.check(okh and ev_ty == "mahf::state::common::Evaluator<P, I>", "C06.R1", fn.key, "holds-own-evaluator",
-              "the evaluator is not taken with holding::<Evaluator<P, I>>()? for the component's own identifier I (got %s)" % ev_ty, loc=fn.loc())
-    if not okh:
-        return
-    # the evaluator object used is the held one
-    recv = f.body.expr_of_op(t["args"][0])
-    leaf, cs, _ = origin(recv)
-    ctx.check(leaf == ("arg", 2) and set(cs) <= {"as_inner_mut", "as_inner", "deref_mut", "deref", "as_mut"}, "C06.R1", fn.key, "uses-held-evaluator",
-              "evaluate is not called on the held evaluator (%s)" % expr_str(recv)[:80], loc=fn.loc(t.get("line")))
-    # counter
-    incs = find_increment(body, EVALS)
-    good = len(incs) == 1
-    why = str(incs)
-    if good:
-        ib = incs[0][0]
-        # the added value: len() of the same population
-        val = None
-        for st in body.stmts(ib):
-            if st[0] == "=" and "*" in st[1][1]:
-                val = body.expr_of_rv(st[2])
-        add = val[1] if val and val[0] == "field" else val
-        addend = add[3] if add and add[0] == "bin" else None
-        lens = [x for x in subexprs(addend)] if addend else []
-        lcalls = [x for x in lens if x[0] == "call" and x[3]["f"].get("name") == "len"]
-        good = bool(addend) and len(lcalls) == 1 and is_population(lcalls[0][2][0]) and all(x[0] in ("call", "cast", "ref", "deref", "downcast", "field", "var", "arg") for x in subexprs(addend))
-        why = expr_str(addend)[:100] if addend else "no addend"
-        ctx.check(good, "C06.R1", fn.key, "count-is-population-len", "Evaluations is advanced by %s, not by len() of the evaluated population" % why, detail=why, loc=fn.loc())
-        ctx.check(ok_dominates(body, hold[0][0], ib) and enclosing_loop(body, ib) is None, "C06.R1", fn.key, "count-after-successful-evaluation",
-                  "the counter is not advanced exactly once on the Ok continuation of the evaluation", loc=fn.loc())
-        sp = try_split(body, hold[0][0])
-        path = must_pass(body, sp[0], lambda b: b == ib, excluded_blocks=err_blocks(body)) if sp else [0]
-        ctx.check(path is None, "C06.R1", fn.key, "count-on-every-ok-path", "a successful evaluation can return without advancing Evaluations (blocks %s)" % path, loc=fn.loc())
-    else:
-        ctx.violation("C06.R1", fn.key, "count-once", "Evaluations is advanced at %d sites (%s), expected exactly one" % (len(incs), why), loc=fn.loc())
-    # push back
-    pushes = [(b, tt) for b, tt in body.calls() if tt["f"].get("key") == "mahf::state::common::Populations::push"]
-    good = len(pushes) == 1 and is_population(body.expr_of_op(pushes[0][1]["args"][1]))
-    ctx.check(good, "C06.R1", fn.key, "same-population-pushed-back", "the evaluated population is not pushed back exactly once (pushes: %d)" % len(pushes), loc=fn.loc())
-    if good:
-        sp = try_split(body, hold[0][0])
-        path = must_pass(body, sp[0], lambda b: b == pushes[0][0], excluded_blocks=err_blocks(body)) if sp else [0]
-        ctx.check(path is None, "C06.R1", fn.key, "pushed-back-on-every-ok-path", "a successful evaluation can return without pushing the population back", loc=fn.loc())
-        ctx.check(enclosing_loop(body, pushes[0][0]) is None, "C06.R1", fn.key, "pushed-back-once", "push sits in a loop", loc=fn.loc())
+                def evaluate(interp, env, f, args):
+                    who = _load(interp, env, args[0])
+                    pop = _load(interp, env, args[3]) if len(args) > 3 else TOP
+                    items = tuple(heap_get(interp, pop.vid)) if isinstance(pop, Vec) else None
+                    if isinstance(pop, Vec) and pop.lo is not None:
+                        items = items[pop.lo:pop.hi]
+                    interp.mstate["evaluated"] = interp.mstate.get("evaluated", ()) + ((who.tag if isinstance(who, Sym) else repr(who), tuple(c07.otag(x) for x in items) if items is not None else None,
+                                                                                      tuple(getattr(x, "vid", None) for x in interp.mstate.get("stack", ()))),)
+                    return Agg("tuple", None, None, [])
+
+                def bv(interp, env, f, args):
+                    return Ref(cnt_home, [], frame="root") if (f.get("gargs") or [""])[0] == EVALS else TOP
+                popsym = Sym("populations", {sf: Sym("stack")})
+                table = {"mahf::state::State::populations_mut": popsym, "mahf::state::State::populations": popsym, "mahf::state::State::holding": holding,
+                         EVAL: evaluate, "mahf::state::common::Evaluator::as_inner_mut": Sym("held-evaluator:inner"), "mahf::state::common::Evaluator::as_inner": Sym("held-evaluator:inner"),
+                         "mahf::state::registry::StateRegistry::borrow_value_mut": bv}
+                it = _inst(Interp(fn.body, chain(mk_oracle(table), StackModel(sf), coll_oracle, std_oracle), [Sym("self"), Sym("problem"), Sym("state")], facts=F,
+                                  inline=lambda k: k.startswith(POP + "::"), max_visits=8, max_paths=50))
+                stack = tuple(Vec(x) for x in (["bottom"] if below else []) + (["top"] if size is not None else []))
+                it.extra_env = {ev_home: Sym("held-evaluator"), cnt_home: 7}
+                it.init_state = {"stack": stack, "next_vec": 0, "heap": {"bottom": (c07.ind("b"),), "top": tuple(c07.ind(i) for i in range(size or 0))}}
+                n += 1
+                label = ("%d population(s) below, top population %s" % (below, "absent" if size is None else "of %d" % size), "present" if have_eval else "absent")
+                for p in it.run():
+                    if p.end != "return" or not isinstance(p.ret, Agg):
+                        bad.append(label + ("does not complete (%s)" % p.end,))
+                        continue
+                    evd = p.mstate.get("evaluated", ())
+                    cnt = p.env.get(cnt_home)
+                    st = [getattr(x, "vid", repr(x)) for x in p.mstate.get("stack", ())]
+                    top_now = [c07.otag(x) for x in p.mstate["heap"].get(st[-1], ())] if st else None
+                    if not stack:
+                        if p.ret.variant != "Ok" or evd or cnt != 7 or st:
+                            bad.append(label + ("is not a no-op on an empty stack (%s, evaluated %s, counter %s, stack %s)" % (p.ret.variant, evd, cnt, st),))
+                        continue
+                    if not have_eval:
+                        if p.ret.variant != "Err" or evd or cnt != 7:
+                            bad.append(label + ("must fail without evaluating or counting (%s, evaluated %s, counter %s)" % (p.ret.variant, evd, cnt),))
+                        continue
+                    want_items = tuple("o:%d" % i for i in range(size)) if size is not None else tuple(["o:b"])
+                    held = p.mstate.get("held", ())
+                    if p.ret.variant != "Ok":
+                        bad.append(label + ("fails (%s)" % p.ret,))
+                    elif held != ("mahf::state::common::Evaluator<P, I>",):
+                        bad.append(label + ("holds %s, expected the evaluator of its own identifier: Evaluator<P, I>" % (held,),))
+                    elif len(evd) != 1 or evd[0][0] != "held-evaluator:inner" or evd[0][1] != want_items:
+                        bad.append(label + ("hands %s to the evaluator; expected one call of the held evaluator with the whole top population %s" % (evd, want_items),))
+                    elif cnt != 7 + len(want_items):
+                        bad.append(label + ("advances the evaluation counter from 7 to %s; expected %d (the number of evaluated individuals)" % (cnt, 7 + len(want_items)),))
+                    elif len(st) != len(stack) or top_now != list(want_items) or (below and st[0] != "bottom"):
+                        bad.append(label + ("leaves the stack %s with top %s; expected the evaluated population back on top of an otherwise untouched stack" % (st, top_now),))
+    ctx.check(not bad, "C06.R1", fn.key, "pop-evaluate-count-push", "%s, evaluator %s: execute %s" % (bad[0] if bad else ("", "", "")), detail="%d scenarios" % n, loc=fn.loc())
+    ctx.count("population_evaluator_scenarios", n)
 
 
 def r2_evaluators(ctx):
@@ -248,42 +257,75 @@ def r3_every_evaluate_is_counted(ctx):
 def r4_identifiers(ctx):
     F = ctx.facts
     req = F.method(PE, "require", COMPONENT)
-    reqs = [tt["f"].get("gargs") for b, tt in req.body.calls() if tt["f"].get("key") == "mahf::state::require::StateReq::require"]
-    tys = sorted(g[-1] for g in reqs if g and len(g) >= 2)
-    want = sorted(["mahf::state::common::Populations<P>", "mahf::state::common::Evaluator<P, I>"])
-    ctx.check(tys == want, "C06.R4", req.key, "requires-stack-and-own-evaluator", "require() checks %s, expected %s" % (tys, want), detail=str(tys), loc=req.loc())
-    for b, tt in req.body.calls():
-        if tt["f"].get("key") == "mahf::state::require::StateReq::require":
-            ctx.check(propagated(req.body, b) or result_disposition(req.body, b) == "passed", "C06.R4", req.key, "require-propagated:%s" % tt["f"]["gargs"][-1][-20:], "a failed requirement is not reported", loc=req.loc(tt.get("line")))
+    # K6: require() over the four presence patterns of (population stack, the evaluator under the component's OWN identifier):
+    # Ok iff both are present; every other requirement it may state is taken as met
+    from absint import Interp, Sym, Agg, TOP, ok, err, std_oracle, chain
+    from collmodel import coll_oracle, install as _inst
+    POPS, OWN = "mahf::state::common::Populations<P>", "mahf::state::common::Evaluator<P, I>"
+    for have_pops in (True, False):
+        for have_eval in (True, False):
+            asked = []
+
+            def oracle(interp, env, f, args, t, bb, path):
+                if f.get("key") == "mahf::state::require::StateReq::require":
+                    ty = (f.get("gargs") or [None])[-1]
+                    asked.append(ty)
+                    present = have_pops if ty == POPS else have_eval if ty == OWN else True
+                    return ok(Agg("tuple", None, None, [])) if present else err(Sym("missing:%s" % ty))
+                return TOP
+            it = _inst(Interp(req.body, chain(oracle, coll_oracle, std_oracle), [Sym("self"), Sym("problem"), Sym("state_req")], facts=F, max_visits=6))
+            outs = sorted({(p.end, p.ret.variant if isinstance(p.ret, Agg) else None) for p in it.run()}, key=str)
+            want = [("return", "Ok" if have_pops and have_eval else "Err")]
+            ctx.check(outs == want, "C06.R4", req.key, "requires-stack-and-own-evaluator:%s/%s" % ("stack" if have_pops else "no-stack", "evaluator" if have_eval else "no-evaluator"),
+                      "population stack %s, Evaluator<P, I> of the component's own identifier %s (it asks for %s): require() yields %s, expected %s"
+                      % ("present" if have_pops else "missing", "present" if have_eval else "missing", sorted(set(map(str, asked))), outs, want), loc=req.loc())
+    # K6 with instantiated type parameters: what optimize() puts into the state, what the builder's evaluate steps append,
+    # what init inserts
+    from collmodel import Vec as _Vec, load as _load
+    GLOBAL = "mahf::identifier::inner::Global"
+
+    def inserted_by(fn, args, inline, extra=None):
+        seen = []
+
+        def oracle(interp, env, f, args_, t, bb, path):
+            k = f.get("key", "")
+            if k == "mahf::state::registry::StateRegistry::insert":
+                seen.append(((f.get("cgargs") or f.get("gargs") or [None])[0], _load(interp, env, args_[1]) if len(args_) > 1 else None))
+                return Agg("adt", "core::option::Option", "None", [])
+            if k == "mahf::configuration::Configuration::run":
+                return ok(Agg("tuple", None, None, []))
+            if k in ("mahf::state::registry::StateRegistry::contains", "mahf::state::registry::StateRegistry::has"):
+                return True
+            if k in ("mahf::state::State::new", "mahf::state::registry::StateRegistry::new"):
+                return Sym("state")
+            if f.get("kind") == "fnptr":
+                return ok(Agg("tuple", None, None, []))
+            return TOP
+        it = _inst(Interp(fn.body, chain(oracle, coll_oracle, std_oracle), args, facts=F, inline=inline, max_visits=6))
+        it.init_state = dict(extra or {})
+        return it.run(), seen
     opt = F.fn("mahf::configuration::Configuration::optimize")
-    import k4 as _k4
-    ins = [tt["f"].get("gargs") for b, tt in opt.body.calls() if tt["f"].get("key") == "mahf::state::registry::StateRegistry::insert"]
-    # helpers of State that insert on the caller's behalf (insert_evaluator, insert_evaluator_as::<I>): substitute their type parameters
-    for b, tt in opt.body.calls():
-        ck = tt["f"].get("key", "")
-        cf = F.fn_opt(ck)
-        if cf is not None and ck.startswith("mahf::state::State::"):
-            names = _k4.type_params(cf.generics)
-            ga = tt["f"].get("gargs") or []
-            mapping = dict(zip(names, ga)) if len(names) == len(ga) else {}
-            for b2, t2 in cf.body.calls():
-                if t2["f"].get("key") == "mahf::state::registry::StateRegistry::insert":
-                    ins.append([_k4.subst(x, mapping) for x in (t2["f"].get("gargs") or [])])
-    ctx.check(any(g and g[0].startswith("mahf::state::common::Evaluator<P, ") and g[0].endswith("::Global>") for g in ins), "C06.R4", opt.key, "registers-global-evaluator", "optimize() does not insert Evaluator<P, Global>: %s" % ins, loc=opt.loc())
-    ev = F.fn("mahf::configuration::ConfigurationBuilder::evaluate")
-    ks = [tt["f"].get("key") for b, tt in ev.body.calls()]
-    ctx.check(PE + "::new" in ks, "C06.R4", ev.key, "default-identifier", "evaluate() does not build PopulationEvaluator::new() (Global identifier): %s" % ks, loc=ev.loc())
-    evw = F.fn("mahf::configuration::ConfigurationBuilder::evaluate_with")
-    gs = [tt["f"].get("gargs") for b, tt in evw.body.calls() if tt["f"].get("key") == PE + "::new_with"]
-    ctx.check(gs and gs[0][0] == "I", "C06.R4", evw.key, "own-identifier", "evaluate_with::<I>() does not build PopulationEvaluator<I>: %s" % gs, loc=evw.loc())
-    # init inserts Evaluations(0)
+    inl_cfg = lambda k: (k.startswith("mahf::configuration::") and not k.endswith("::run")) or k.startswith("mahf::state::State::insert_evaluator") or k.startswith("<mahf::state::State")
+    paths, seen = inserted_by(opt, [Sym("self"), Sym("problem"), Sym("evaluator")], inl_cfg)
+    tys = [t for t, _ in seen]
+    good = any(p.end == "return" for p in paths) and any(t and t.startswith("mahf::state::common::Evaluator<P, ") and t.endswith(GLOBAL + ">") for t in tys)
+    ctx.check(good, "C06.R4", opt.key, "registers-global-evaluator", "optimize() does not insert Evaluator<P, Global> before the run (it inserts %s)" % tys, loc=opt.loc())
+    inl_b = lambda k: k.startswith("mahf::configuration::") or k.startswith(PE + "::") or k.startswith("<" + PE)
+    for name, want, label in (("evaluate", GLOBAL, "default-identifier"), ("evaluate_with", "I", "own-identifier")):
+        fn = F.fn("mahf::configuration::ConfigurationBuilder::" + name)
+        it = _inst(Interp(fn.body, chain(coll_oracle, std_oracle), [Agg("adt", "mahf::configuration::ConfigurationBuilder", "ConfigurationBuilder", [_Vec("components")])], facts=F, inline=inl_b, max_visits=6))
+        it.init_state = {"heap": {"components": ()}, "next_vec": 0}
+        got = []
+        for p in it.run():
+            comps = p.mstate["heap"].get("components", ()) if p.end == "return" else None
+            got.append([(c.name, getattr(c, "gargs", None)) if isinstance(c, Agg) else c for c in comps] if comps is not None else p.end)
+        ctx.check(got == [[(PE, [want])]], "C06.R4", fn.key, label,
+                  "%s() appends %s, expected exactly one PopulationEvaluator<%s>" % (name, got, want), loc=fn.loc())
     ini = F.method(PE, "init", COMPONENT)
-    ins = [(b, tt) for b, tt in ini.body.calls() if tt["f"].get("key") == "mahf::state::registry::StateRegistry::insert" and tt["f"].get("gargs") == [EVALS]]
-    good = len(ins) == 1
-    if good:
-        v = strip(ini.body.expr_of_op(ins[0][1]["args"][1]))
-        good = v[0] == "agg" and v[4] and v[4][0][0] == "const" and v[4][0][2] == 0
-    ctx.check(good, "C06.R4", ini.key, "counter-starts-at-zero", "init does not insert Evaluations(0)", loc=ini.loc())
+    paths, seen = inserted_by(ini, [Sym("self"), Sym("problem"), Sym("state")], lambda k: k.startswith("mahf::state::common::") or k.startswith("<mahf::state::common::"))
+    vals = [(t, v.fields[0] if isinstance(v, Agg) and v.fields else v) for t, v in seen if t == EVALS]
+    good = len(paths) == 1 and paths[0].end == "return" and isinstance(paths[0].ret, Agg) and paths[0].ret.variant == "Ok" and vals == [(EVALS, 0)]
+    ctx.check(good, "C06.R4", ini.key, "counter-starts-at-zero", "init does not insert exactly one Evaluations(0) (it inserts %s)" % [(t, str(v)) for t, v in seen], loc=ini.loc())
 
 
 def r5_scopes_merge_counts(ctx):
